@@ -222,4 +222,490 @@ Section AssocFacts.
         congruence.
       + rewrite <- Hk, Ek in H. exact H.
   Qed.
+
+  (* ---- stable insertion sort ---- *)
+  Lemma ins_perm e (l : list E) : Permutation (ins cmp e l) (e :: l).
+  Proof.
+    induction l as [|e' t IH]; simpl; [reflexivity|].
+    destruct (cmp (fst e) (fst e')); try reflexivity.
+    rewrite IH. apply perm_swap.
+  Qed.
+
+  Lemma isort_perm (l : list E) : Permutation (isort cmp l) l.
+  Proof.
+    induction l as [|e t IH]; simpl; [reflexivity|].
+    unfold isort in *. simpl. rewrite ins_perm. constructor. exact IH.
+  Qed.
+
+  Lemma not_gt_trans a b c : cmp a b = Lt -> cmp b c <> Gt -> cmp a c <> Gt.
+  Proof.
+    intros H1 H2. destruct (cmp b c) eqn:E2; [|..].
+    - apply cmp_eq in E2. subst. congruence.
+    - rewrite (cmp_trans _ _ _ H1 E2). discriminate.
+    - congruence.
+  Qed.
+
+  Lemma ins_wk e (l : list E) : wk (keys l) -> wk (keys (ins cmp e l)).
+  Proof.
+    induction l as [|e' t IH]; simpl; [intros _; split; [constructor|exact I]|].
+    intros [F W]. destruct (cmp (fst e) (fst e')) eqn:Ec; simpl.
+    - split; [|split; assumption]. constructor; [congruence|].
+      apply cmp_eq in Ec. rewrite Ec. exact F.
+    - split; [|split; assumption]. constructor; [congruence|].
+      rewrite Forall_forall in *. intros k Hk. eapply not_gt_trans; [exact Ec | apply F; exact Hk].
+    - split; [|apply IH; exact W].
+      assert (P : Permutation (keys (ins cmp e t)) (fst e :: keys t)).
+      { change (fst e :: keys t) with (keys (e :: t)). apply Permutation_map. apply ins_perm. }
+      rewrite Forall_forall in *. intros k Hk.
+      apply (Permutation_in _ P) in Hk. destruct Hk as [<-|Hk]; [|auto].
+      rewrite cmp_sym, Ec. simpl. discriminate.
+  Qed.
+
+  Lemma isort_wk (l : list E) : wk (keys (isort cmp l)).
+  Proof. induction l as [|e t IH]; simpl; [exact I|]. apply ins_wk. exact IH. Qed.
+
+  Lemma isort_sk (l : list E) : NoDup (keys l) -> sk (keys (isort cmp l)).
+  Proof.
+    intros ND. apply wk_nodup_sk; [apply isort_wk|].
+    eapply Permutation_NoDup; [apply Permutation_sym, Permutation_map, isort_perm | exact ND].
+  Qed.
+
+  Lemma lookup_isort k (l : list E) : NoDup (keys l) -> lookup cmp k (isort cmp l) = lookup cmp k l.
+  Proof. intros ND. symmetry. apply lookup_perm; [exact ND | apply Permutation_sym, isort_perm]. Qed.
+
+  (* ---- upsert ---- *)
+  Lemma upsert_keys_in k v (l : list E) k' : In k' (keys (upsert cmp k v l)) <-> k' = k \/ In k' (keys l).
+  Proof.
+    induction l as [|e t IH]; simpl; [intuition|].
+    destruct (cmp k (fst e)) eqn:Ec; simpl.
+    - apply cmp_eq in Ec. subst. intuition.
+    - intuition.
+    - rewrite IH. intuition.
+  Qed.
+
+  Lemma upsert_sk k v (l : list E) : sk (keys l) -> sk (keys (upsert cmp k v l)).
+  Proof.
+    induction l as [|e t IH]; simpl; [intros _; split; [constructor|exact I]|].
+    intros [F S]. destruct (cmp k (fst e)) eqn:Ec; simpl.
+    - apply cmp_eq in Ec. subst. split; assumption.
+    - split; [|split; assumption]. constructor; [exact Ec|].
+      rewrite Forall_forall in *. intros k' Hk. eapply cmp_trans; [exact Ec | apply F; exact Hk].
+    - split; [|apply IH; exact S].
+      rewrite Forall_forall in *. intros k' Hk. apply upsert_keys_in in Hk. destruct Hk as [->|Hk]; [|auto].
+      rewrite cmp_sym, Ec. reflexivity.
+  Qed.
+
+  Lemma lookup_upsert k v (l : list E) k' : sk (keys l) ->
+    lookup cmp k' (upsert cmp k v l) = if keqb cmp k' k then Some v else lookup cmp k' l.
+  Proof.
+    induction l as [|e t IH]; simpl; intros S.
+    - destruct (keqb cmp k' k); reflexivity.
+    - destruct S as [F S]. destruct (cmp k (fst e)) eqn:Ec; simpl.
+      + apply cmp_eq in Ec. subst. destruct (keqb cmp k' (fst e)); reflexivity.
+      + reflexivity.
+      + rewrite (IH S). destruct (keqb cmp k' (fst e)) eqn:E1; [|reflexivity].
+        apply keqb_true in E1. subst k'.
+        assert (Hne : keqb cmp (fst e) k = false).
+        { apply keqb_false. intros Heq. rewrite <- Heq, cmp_refl in Ec. discriminate. }
+        rewrite Hne. reflexivity.
+  Qed.
+
+  (* ---- keep the last row of every key ---- *)
+  Lemma dedup_keys_in (l : list E) k : In k (keys (dedup_last cmp l)) <-> In k (keys l).
+  Proof.
+    induction l as [|e t IH]; simpl; [tauto|].
+    destruct (memk cmp (fst e) (keys t)) eqn:Em; simpl; rewrite IH; [|tauto].
+    apply memk_In in Em. split; [auto|]. intros [<-|H]; auto.
+  Qed.
+
+  Lemma dedup_nodup (l : list E) : NoDup (keys (dedup_last cmp l)).
+  Proof.
+    induction l as [|e t IH]; simpl; [constructor|].
+    destruct (memk cmp (fst e) (keys t)) eqn:Em; [exact IH|].
+    simpl. constructor; [|exact IH]. rewrite dedup_keys_in. apply memk_false. exact Em.
+  Qed.
+
+  Lemma dedup_id (l : list E) : NoDup (keys l) -> dedup_last cmp l = l.
+  Proof.
+    induction l as [|e t IH]; simpl; [reflexivity|]. intros ND. inversion ND; subst.
+    assert (Em : memk cmp (fst e) (keys t) = false) by (apply memk_false; assumption).
+    rewrite Em, IH; auto.
+  Qed.
+
+  Lemma dedup_forall (P : E -> Prop) (l : list E) : Forall P l -> Forall P (dedup_last cmp l).
+  Proof.
+    induction 1 as [|e t He Ht IH]; simpl; [constructor|].
+    destruct (memk cmp (fst e) (keys t)); [exact IH | constructor; assumption].
+  Qed.
+
+  Definition uall (D F : list E) : list E := fold_left (fun m e => upsert cmp (fst e) (snd e) m) D F.
+
+  Lemma uall_sk D : forall F, sk (keys F) -> sk (keys (uall D F)).
+  Proof. induction D as [|e D IH]; simpl; intros F S; [exact S|]. apply IH. apply upsert_sk. exact S. Qed.
+
+  Lemma lookup_uall k D : forall F, sk (keys F) ->
+    lookup cmp k (uall D F) = match lookup cmp k (dedup_last cmp D) with Some v => Some v | None => lookup cmp k F end.
+  Proof.
+    induction D as [|e D IH]; simpl; intros F S; [reflexivity|].
+    unfold uall in *. simpl. rewrite (IH _ (upsert_sk _ _ _ S)). rewrite (lookup_upsert _ _ _ _ S).
+    destruct (memk cmp (fst e) (keys D)) eqn:Em.
+    - destruct (lookup cmp k (dedup_last cmp D)) eqn:El; [reflexivity|].
+      destruct (keqb cmp k (fst e)) eqn:Ek; [|reflexivity].
+      apply keqb_true in Ek. subst k. apply lookup_none in El. exfalso. apply El.
+      apply dedup_keys_in. apply memk_In. exact Em.
+    - simpl. destruct (keqb cmp k (fst e)) eqn:Ek.
+      + apply keqb_true in Ek. subst k.
+        assert (El : lookup cmp (fst e) (dedup_last cmp D) = None).
+        { apply lookup_none. rewrite dedup_keys_in. apply memk_false. exact Em. }
+        rewrite El. reflexivity.
+      + reflexivity.
+  Qed.
+
+  (* ---- the pandas merge of a buffer frame b into the frame F ---- *)
+  Definition overwrite (b F : list E) : list E :=
+    map (fun e => match lookup cmp (fst e) b with Some r' => (fst e, r') | None => e end) F.
+  Definition fresh (b F : list E) : list E :=
+    filter (fun e => negb (memk cmp (fst e) (keys F))) b.
+
+  Lemma overwrite_keys b F : keys (overwrite b F) = keys F.
+  Proof.
+    unfold overwrite. rewrite map_map. apply map_ext. intros e.
+    destruct (lookup cmp (fst e) b); reflexivity.
+  Qed.
+
+  Lemma lookup_overwrite k b F :
+    lookup cmp k (overwrite b F) =
+    match lookup cmp k F with
+    | None => None
+    | Some v => match lookup cmp k b with Some r' => Some r' | None => Some v end
+    end.
+  Proof.
+    induction F as [|e t IH]; simpl; [reflexivity|].
+    destruct (lookup cmp (fst e) b) eqn:Eb; simpl; destruct (keqb cmp k (fst e)) eqn:Ek; auto.
+    - apply keqb_true in Ek. subst k. rewrite Eb. reflexivity.
+    - apply keqb_true in Ek. subst k. rewrite Eb. reflexivity.
+  Qed.
+
+  Lemma filter_keys_nodup (p : E -> bool) (l : list E) : NoDup (keys l) -> NoDup (keys (filter p l)).
+  Proof.
+    induction l as [|e t IH]; simpl; [auto|]. intros ND. inversion ND; subst.
+    destruct (p e); simpl; [|auto]. constructor; [|auto].
+    intros Hin. apply H1. apply in_map_iff in Hin. destruct Hin as [x [Hx Hf]].
+    apply filter_In in Hf. rewrite <- Hx. apply in_map. tauto.
+  Qed.
+
+  Lemma lookup_fresh k b F :
+    lookup cmp k (fresh b F) = if memk cmp k (keys F) then None else lookup cmp k b.
+  Proof.
+    unfold fresh. induction b as [|e t IH]; simpl; [destruct (memk cmp k (keys F)); reflexivity|].
+    destruct (memk cmp (fst e) (keys F)) eqn:Em; simpl.
+    - rewrite IH. destruct (keqb cmp k (fst e)) eqn:Ek; [|reflexivity].
+      apply keqb_true in Ek. subst k. rewrite Em. reflexivity.
+    - destruct (keqb cmp k (fst e)) eqn:Ek; [|exact IH].
+      apply keqb_true in Ek. subst k. rewrite Em. reflexivity.
+  Qed.
+
+  Lemma nodup_app (a b : list K) : NoDup a -> NoDup b -> (forall x, In x a -> ~ In x b) -> NoDup (a ++ b).
+  Proof.
+    induction a as [|x t IH]; simpl; intros Na Nb D; [exact Nb|].
+    inversion Na; subst. constructor.
+    - rewrite in_app_iff. intros [H|H]; [contradiction | exact (D x (or_introl eq_refl) H)].
+    - apply IH; auto.
+  Qed.
+
+  (* the merge equals the finite-map updates, whatever the order of the (distinct) buffered keys *)
+  Lemma merge_is_uall (D b F : list E) :
+    sk (keys F) -> NoDup (keys b) -> (forall k, lookup cmp k b = lookup cmp k (dedup_last cmp D)) ->
+    isort cmp (overwrite b F ++ fresh b F) = uall D F.
+  Proof.
+    intros S NDb Hb.
+    assert (ND : NoDup (keys (overwrite b F ++ fresh b F))).
+    { rewrite map_app. apply nodup_app.
+      - rewrite overwrite_keys. apply sk_nodup. exact S.
+      - apply filter_keys_nodup. exact NDb.
+      - rewrite overwrite_keys. intros x Hx Hf. apply in_map_iff in Hf. destruct Hf as [e [He Hf]].
+        apply filter_In in Hf. destruct Hf as [_ Hf]. apply negb_true_iff, memk_false in Hf. subst x. contradiction. }
+    apply canon.
+    - apply isort_sk. exact ND.
+    - apply uall_sk. exact S.
+    - intros k. rewrite (lookup_isort _ _ ND), lookup_app, lookup_overwrite, lookup_fresh, (lookup_uall _ _ _ S), <- Hb.
+      destruct (lookup cmp k F) eqn:EF.
+      + destruct (lookup cmp k b); reflexivity.
+      + assert (Em : memk cmp k (keys F) = false) by (apply memk_false, lookup_none; exact EF).
+        rewrite Em. destruct (lookup cmp k b); reflexivity.
+  Qed.
 End AssocFacts.
+
+(* ======================================================================
+   3. tables: commit computes the abstraction
+   ====================================================================== *)
+Notation ksk := (sk key_cmp).
+
+Lemma dd_id : forall (l : list entry) seen,
+  NoDup (map snd l) -> (forall r, In r (map snd l) -> ~ In r seen) -> drop_dup_rows seen l = l.
+Proof.
+  induction l as [|e t IH]; simpl; intros seen ND Hs; [reflexivity|].
+  inversion ND as [|? ? Hn ND']; subst.
+  assert (Em : memk key_cmp (snd e) seen = false).
+  { apply (memk_false key_cmp key_eq). apply Hs. left. reflexivity. }
+  rewrite Em. f_equal. apply IH; [exact ND'|].
+  intros r Hr [Hin|Hin]; [subst r; contradiction | exact (Hs r (or_intror Hr) Hin)].
+Qed.
+
+Lemma keyed_consistent cs ics B : Forall (fun e : entry => fst e = key_of cs ics (snd e)) (keyed cs ics B).
+Proof. unfold keyed. induction B as [|r B IH]; simpl; constructor; auto. Qed.
+
+Lemma consistent_nodup_rows kf (l : list entry) :
+  Forall (fun e : entry => fst e = kf (snd e)) l -> NoDup (map fst l) -> NoDup (map snd l).
+Proof.
+  intros Hc ND. apply (NoDup_map_inv kf).
+  replace (map kf (map snd l)) with (map fst l); [exact ND|].
+  rewrite map_map. apply map_ext_in. intros e He. rewrite Forall_forall in Hc. apply Hc. exact He.
+Qed.
+
+Lemma fold_keyed cs ics B : forall F,
+  fold_left (fun m r => upsert key_cmp (key_of cs ics r) r m) B F = uall key_cmp (keyed cs ics B) F.
+Proof. unfold uall, keyed. induction B as [|r B IH]; simpl; intros F; [reflexivity|]. apply IH. Qed.
+
+Lemma merge_indexed_ok cs ics F B : ksk (map fst F) ->
+  merge_indexed true cs ics F B = Some (uall key_cmp (keyed cs ics B) F).
+Proof.
+  intros S. unfold merge_indexed.
+  set (D := keyed cs ics B). set (b1 := dedup_last key_cmp D).
+  assert (ND1 : NoDup (map fst b1)) by (apply (dedup_nodup key_cmp key_eq)).
+  assert (P : Permutation (isort key_cmp b1) b1) by apply isort_perm.
+  assert (ND2 : NoDup (map fst (isort key_cmp b1))).
+  { eapply Permutation_NoDup; [apply Permutation_sym, Permutation_map; exact P | exact ND1]. }
+  assert (C2 : Forall (fun e : entry => fst e = key_of cs ics (snd e)) (isort key_cmp b1)).
+  { eapply Permutation_Forall; [apply Permutation_sym; exact P|].
+    apply dedup_forall. apply keyed_consistent. }
+  assert (E3 : drop_dup_rows [] (isort key_cmp b1) = isort key_cmp b1).
+  { apply dd_id; [eapply consistent_nodup_rows; eassumption | intros r _ []]. }
+  rewrite E3.
+  assert (Hd : has_dup key_cmp (map fst (filter (fun e : entry => memk key_cmp (fst e) (map fst F)) (isort key_cmp b1))) = false).
+  { apply (has_dup_false key_cmp key_eq). apply filter_keys_nodup. exact ND2. }
+  match goal with |- (if ?c then _ else _) = _ => replace c with false by (symmetry; exact Hd) end.
+  f_equal.
+  apply (merge_is_uall key_cmp key_eq key_sym key_trans D (isort key_cmp b1) F S ND2).
+  intros k. apply (lookup_isort key_cmp key_eq). exact ND1.
+Qed.
+
+Definition abs_ents (t : table) : list entry :=
+  match index t with
+  | None => frame t ++ unkeyed (buffer t)
+  | Some ics => fold_left (fun m r => upsert key_cmp (key_of (cols t) ics r) r m) (buffer t) (frame t)
+  end.
+Definition abs (t : table) : sstate := mkS (cols t) (abs_ents t) (index t).
+Definition committed (t : table) : table := mkT (cols t) (abs_ents t) (index t) [].
+
+Definition inv (t : table) : Prop :=
+  Forall (fun r => length r = length (cols t)) (buffer t) /\
+  (forall ics, index t = Some ics -> ksk (map fst (frame t))).
+
+Lemma widths_ok_inv t : inv t -> widths_ok t = true.
+Proof.
+  intros [H _]. unfold widths_ok. apply forallb_forall. rewrite Forall_forall in H.
+  intros r Hr. apply Nat.eqb_eq. auto.
+Qed.
+
+Lemma commit_abs t : inv t -> commit all_true t = Some (committed t).
+Proof.
+  intros Hi. unfold commit, committed, abs_ents.
+  destruct (buffer t) as [|r B] eqn:EB.
+  - destruct t as [c f i b]; simpl in *. subst b. destruct i; simpl; [reflexivity|].
+    unfold unkeyed. simpl. rewrite app_nil_r. reflexivity.
+  - rewrite (widths_ok_inv t Hi). simpl negb. cbv iota.
+    destruct (index t) as [ics|] eqn:EI; [|reflexivity].
+    destruct Hi as [_ Hs]. simpl f_dedup_last.
+    rewrite (merge_indexed_ok _ _ _ _ (Hs ics EI)). rewrite fold_keyed. reflexivity.
+Qed.
+
+Lemma abs_ents_sorted t ics : inv t -> index t = Some ics -> ksk (map fst (abs_ents t)).
+Proof.
+  intros [_ Hs] EI. unfold abs_ents. rewrite EI. rewrite fold_keyed.
+  apply (uall_sk key_cmp key_eq key_sym key_trans). eauto.
+Qed.
+
+Lemma inv_committed t : inv t -> inv (committed t).
+Proof.
+  intros Hi. split; simpl; [constructor|]. intros ics EI. eapply abs_ents_sorted; eauto.
+Qed.
+
+Lemma abs_committed t : abs (committed t) = abs t.
+Proof.
+  unfold abs, committed, abs_ents. simpl. destruct (index t); simpl; [reflexivity|].
+  unfold unkeyed. simpl. rewrite app_nil_r. reflexivity.
+Qed.
+
+(* ======================================================================
+   4. every operation of the model is the operation of the spec
+   ====================================================================== *)
+Definition add_rows (t : table) (rs : list row) : table :=
+  mkT (cols t) (frame t) (index t) (buffer t ++ rs).
+
+Lemma insert_abs t r : abs (add_rows t [r]) = s_insert (abs t) r.
+Proof.
+  unfold abs, add_rows, abs_ents, s_insert. simpl. destruct (index t) as [ics|]; simpl.
+  - rewrite fold_left_app. reflexivity.
+  - unfold unkeyed. rewrite map_app, app_assoc. reflexivity.
+Qed.
+
+Lemma inserts_abs rs : forall t, abs (add_rows t rs) = fold_left s_insert rs (abs t).
+Proof.
+  induction rs as [|r rs IH]; intros t.
+  - unfold add_rows. rewrite app_nil_r. destruct t; reflexivity.
+  - simpl. rewrite <- insert_abs, <- IH. unfold add_rows. simpl. rewrite <- app_assoc. reflexivity.
+Qed.
+
+Lemma inv_add_rows t rs : inv t -> Forall (fun r => length r = length (cols t)) rs -> inv (add_rows t rs).
+Proof.
+  intros [H1 H2] Hr. split; simpl; [apply Forall_app; split; assumption | exact H2].
+Qed.
+
+Lemma assign_col_keys i : forall (es : list entry) vals, length vals = length es ->
+  map fst (assign_col i vals es) = map fst es.
+Proof.
+  induction es as [|e es IH]; intros [|v vals] Hl; simpl in *; try discriminate; [reflexivity|].
+  f_equal. apply IH. lia.
+Qed.
+
+Lemma reindex_map_of_rows cs ics (es : list entry) :
+  NoDup (map (key_of cs ics) (map snd es)) ->
+  reindex cs ics es = map_of_rows cs ics (map snd es) /\ ksk (map fst (reindex cs ics es)).
+Proof.
+  intros ND. unfold reindex, map_of_rows. set (D := keyed cs ics (map snd es)).
+  assert (NDk : NoDup (map fst D)).
+  { unfold D, keyed. rewrite map_map. simpl. exact ND. }
+  assert (P : Permutation (isort key_cmp D) D) by apply isort_perm.
+  assert (ND2 : NoDup (map fst (isort key_cmp D))).
+  { eapply Permutation_NoDup; [apply Permutation_sym, Permutation_map; exact P | exact NDk]. }
+  assert (C2 : Forall (fun e : entry => fst e = key_of cs ics (snd e)) (isort key_cmp D)).
+  { eapply Permutation_Forall; [apply Permutation_sym; exact P | apply keyed_consistent]. }
+  assert (E3 : drop_dup_rows [] (isort key_cmp D) = isort key_cmp D).
+  { apply dd_id; [eapply consistent_nodup_rows; eassumption | intros r _ []]. }
+  rewrite E3, fold_keyed. fold D.
+  assert (S1 : ksk (map fst (isort key_cmp D))) by (apply (isort_sk key_cmp key_eq key_sym key_trans); exact NDk).
+  split; [|exact S1].
+  apply (canon key_cmp key_eq key_sym key_trans); [exact S1 | apply (uall_sk key_cmp key_eq key_sym key_trans); exact I |].
+  intros k. rewrite (lookup_isort key_cmp key_eq _ _ NDk).
+  rewrite (lookup_uall key_cmp key_eq key_sym key_trans) by exact I.
+  rewrite (dedup_id key_cmp key_eq _ NDk). simpl. destruct (lookup key_cmp k D); reflexivity.
+Qed.
+
+Lemma forallb_widths (rs : list row) n :
+  forallb (fun r => Nat.eqb (length r) n) rs = true -> Forall (fun r => length r = n) rs.
+Proof.
+  intros H. apply Forall_forall. intros r Hr. rewrite forallb_forall in H. apply Nat.eqb_eq. auto.
+Qed.
+
+Definition step_ok (t : table) (o : op) : Prop :=
+  snd (step all_true t o) = snd (sstep (abs t) o) /\
+  abs (fst (step all_true t o)) = fst (sstep (abs t) o) /\
+  inv (fst (step all_true t o)).
+
+Lemma read_ok t (v : table -> obs) (w : sstate -> obs) :
+  inv t -> v (committed t) = w (abs t) ->
+  snd (committed t, v (committed t)) = snd (abs t, w (abs t)) /\
+  abs (fst (committed t, v (committed t))) = fst (abs t, w (abs t)) /\
+  inv (fst (committed t, v (committed t))).
+Proof.
+  intros Hi Hv. simpl. split; [exact Hv|]. split; [apply abs_committed | apply inv_committed; exact Hi].
+Qed.
+
+Lemma step_refines t o : inv t -> op_dom (abs t) o = true -> step_ok t o.
+Proof.
+  intros Hi Hd. unfold step_ok. destruct o as [r|rs|c| | |cs| |c vals|q].
+  - (* insert *)
+    unfold step, sstep. change (s_cols (abs t)) with (cols t).
+    destruct (Nat.eqb (length r) (length (cols t))) eqn:El; simpl; [|auto].
+    split; [reflexivity|]. split; [apply (insert_abs t r)|].
+    apply (inv_add_rows t [r] Hi). constructor; [apply Nat.eqb_eq; exact El | constructor].
+  - (* batch *)
+    unfold step, sstep. change (s_cols (abs t)) with (cols t).
+    destruct rs as [|r0 rs]; [simpl; auto|].
+    destruct (Nat.eqb (length r0) (length (cols t))) eqn:El; [|simpl; auto].
+    cbn [fst snd]. split; [reflexivity|]. split; [apply (inserts_abs (r0 :: rs) t)|].
+    apply (inv_add_rows t (r0 :: rs) Hi).
+    unfold op_dom in Hd. apply forallb_widths in Hd. apply Nat.eqb_eq in El.
+    rewrite Forall_forall in *. intros r Hr. rewrite (Hd r Hr). exact El.
+  - (* t?c *)
+    unfold step. cbn [commit_if f_get_commits all_true]. rewrite (commit_abs t Hi).
+    apply (read_ok t (fun t1 => match col_pos c (cols t1) with
+                                | Some i => VCells (column i (rows_of t1)) | None => VUndef end)
+                     (fun s => match col_pos c (s_cols s) with
+                               | Some i => VCells (column i (s_rows s)) | None => VUndef end) Hi).
+    reflexivity.
+  - (* #t *)
+    unfold step. cbn [commit_if f_len_commits all_true]. rewrite (commit_abs t Hi).
+    apply (read_ok t (fun t1 => VInt (Z.of_nat (length (frame t1)))) (fun s => VInt (Z.of_nat (length (s_ents s)))) Hi).
+    reflexivity.
+  - (* .schema *)
+    simpl. auto.
+  - (* .index *)
+    unfold step, sstep. change (s_index (abs t)) with (index t). change (s_cols (abs t)) with (cols t).
+    simpl in Hd. change (s_index (abs t)) with (index t) in Hd. change (s_cols (abs t)) with (cols t) in Hd.
+    destruct (index t) as [ics|] eqn:EI; [simpl; auto|].
+    destruct (negb (forallb (has_col (cols t)) cs)) eqn:Ec; [simpl; auto|].
+    cbn [commit_if f_index_commits all_true]. rewrite (commit_abs t Hi).
+    apply negb_true_iff, (has_dup_false key_cmp key_eq) in Hd.
+    destruct (reindex_map_of_rows (cols t) cs (abs_ents t) Hd) as [E1 S1].
+    cbn [fst snd committed cols frame buffer index].
+    split; [reflexivity|]. split.
+    + unfold abs, abs_ents. simpl. rewrite E1. reflexivity.
+    + split; simpl; [constructor | intros _ _; exact S1].
+  - (* .rindex *)
+    unfold step, sstep. change (s_index (abs t)) with (index t).
+    destruct (index t) as [ics|] eqn:EI; [|simpl; auto].
+    cbn [commit_if f_rindex_commits all_true]. rewrite (commit_abs t Hi).
+    cbn [fst snd committed cols frame buffer index]. split; [reflexivity|]. split.
+    + unfold abs, abs_ents. simpl. unfold unkeyed at 2. simpl. rewrite app_nil_r. reflexivity.
+    + split; simpl; [constructor | discriminate].
+  - (* t,"c",,vals *)
+    unfold step, sstep. cbn [commit_if f_set_commits all_true]. rewrite (commit_abs t Hi).
+    change (length (frame (committed t))) with (length (s_ents (abs t))).
+    destruct (Nat.eqb (length vals) (length (s_ents (abs t)))) eqn:El.
+    + cbn [fst snd committed cols frame buffer index]. split; [reflexivity|]. split.
+      * unfold abs at 1, abs_ents at 1. cbn [cols frame buffer index].
+        change (s_cols (abs t)) with (cols t). change (s_index (abs t)) with (index t).
+        change (s_ents (abs t)) with (abs_ents t).
+        destruct (index t); simpl; [reflexivity|]. unfold unkeyed. simpl. rewrite app_nil_r. reflexivity.
+      * split; simpl; [constructor|]. intros ics EI.
+        rewrite assign_col_keys by (apply Nat.eqb_eq; exact El).
+        eapply abs_ents_sorted; eauto.
+    + cbn [fst snd]. split; [reflexivity|]. split; [apply abs_committed | apply inv_committed; exact Hi].
+  - (* db(sql) *)
+    unfold step. cbn [commit_if f_db_commits all_true]. rewrite (commit_abs t Hi).
+    apply (read_ok t
+      (fun t1 => match q with
+                 | QCount => VInt (Z.of_nat (length (frame t1)))
+                 | QAll => squeeze (length (cols t1)) (rows_of t1)
+                 | QCols cs => match cs, positions cs (cols t1) with
+                               | _ :: _, Some ps => squeeze (length cs) (map (project ps) (rows_of t1))
+                               | _, _ => VErr end end)
+      (fun s => match q with
+                | QCount => VInt (Z.of_nat (length (s_ents s)))
+                | QAll => squeeze (length (s_cols s)) (s_rows s)
+                | QCols cs => match cs, positions cs (s_cols s) with
+                              | _ :: _, Some ps => squeeze (length cs) (map (project ps) (s_rows s))
+                              | _, _ => VErr end end) Hi).
+    reflexivity.
+Qed.
+
+Theorem run_refines : forall ops t, inv t -> sdom (abs t) ops = true -> run all_true t ops = srun (abs t) ops.
+Proof.
+  induction ops as [|o ops IH]; intros t Hi Hd; [reflexivity|].
+  simpl in Hd. apply andb_true_iff in Hd. destruct Hd as [Hd1 Hd2].
+  destruct (step_refines t o Hi Hd1) as [Hv [Ha Hn]].
+  simpl. destruct (step all_true t o) as [t1 v] eqn:E1. destruct (sstep (abs t) o) as [s1 v'] eqn:E2.
+  simpl in *. subst v' s1. f_equal. apply IH; assumption.
+Qed.
+
+Lemma inv_create cs rs : inv (create cs rs).
+Proof. split; simpl; [constructor | discriminate]. Qed.
+
+Lemma abs_create cs rs : abs (create cs rs) = screate cs rs.
+Proof. unfold abs, create, screate, abs_ents. simpl. unfold unkeyed at 2. simpl. rewrite app_nil_r. reflexivity. Qed.
+
+Theorem refines_create fl cs rs ops : fl = all_true ->
+  sdom (screate cs rs) ops = true -> run fl (create cs rs) ops = srun (screate cs rs) ops.
+Proof. intros -> Hd. rewrite <- abs_create in *. apply run_refines; [apply inv_create | exact Hd]. Qed.
